@@ -700,7 +700,7 @@ pub fn apply_op(op: &Op, top: bool) {
             audit(!top);
         }
         Op::TryUnwrap(_) | Op::MakeMut(_) | Op::GetMut(_) | Op::IntoRaw(_) | Op::FromRaw(_) | Op::IncStrong(_) | Op::DecStrong(_) | Op::DropLoose(_) | Op::WeakIntoRaw(_) | Op::WeakFromRaw(_) => {
-            if top && (mode == Mode::Consume || mode == Mode::NoAdopt || mode == Mode::Elide) {
+            if top && (mode == Mode::Consume || mode == Mode::NoAdopt || mode == Mode::Elide || wd.cfg.allow_consume) {
                 crate::consume::apply(op);
             } else {
                 noop();
@@ -1448,7 +1448,7 @@ pub fn run_script(s: &Script, cfg: Cfg) -> ! {
 
 /// Interpret the whole script; returns normally when no view failed.
 pub fn run_script_body(s: &Script, cfg: Cfg) {
-    arena::seed_layout(s.layout_seed, true);
+    arena::seed_layout(s.arena_seed.unwrap_or(s.layout_seed), true);
     let digest = cfg.digest;
     let leaks = cfg.audit_leaks;
     install_world(cfg);
